@@ -39,7 +39,12 @@ Inductive sess_op :=
 Inductive case :=
   | CLim (max : N) (ttl block : Z) (steps : list (lim_op * ltable))
   | CLogin (max : N) (ttl block : Z) (tol : Z) (steps : list login_step)
-  | CSess (dict : list bytes) (steps : list (sess_op * (stable * stable))).
+  | CSess (dict : list bytes) (steps : list (sess_op * (stable * stable)))
+  (* the real initUsers with [auth_attempts] / [block_auth_min] set, then a
+     login history through handleLogin with the Auth it returned.  Observed:
+     [Auth.rateLimiter != nil] and its blockDur / maxAttempts fields. *)
+  | CInitLogin (attempts block_min : Z) (obs_present : bool) (obs_block : Z) (obs_max : N) (tol : Z)
+               (steps : list login_step).
 
 (** * Comparison of tables *)
 
@@ -84,6 +89,33 @@ Definition out_status (o : login_out) : Z :=
 
 Definition out_retry (o : login_out) : Z :=
   match o with L429 l => l / 1000000000 | _ => -1 end.
+
+Fixpoint login_replay_opt (c : option rl_conf) (tol : Z) (s : rl_state) (ns : N) (i : Z) (l : list login_step) : Z :=
+  match l with
+  | [] => 0
+  | st :: l' =>
+      if ls_kind st =? 1 then
+        if (ls_status st =? 400) && (ls_nsess st =? ns)%N && ltab_ok tol s (ls_tab st)
+        then login_replay_opt c tol s ns (i + 1) l' else i
+      else
+        let e := {| a_now := ls_now st; a_now2 := ls_now st; a_addr := ls_addr st; a_hdr := ls_hdr st;
+                   a_trusted := ls_trusted st; a_ok := ls_ok st |} in
+        let '(s', o) := login_opt c e s in
+        let ns' := match o with L200 => (ns + 1)%N | _ => ns end in
+        let retry_ok := match o with
+                        | L429 _ => Z.abs (out_retry o - ls_retry st) <=? 1
+                        | _ => ls_retry st =? -1
+                        end in
+        if (out_status o =? ls_status st) && retry_ok && (ls_nsess st =? ns')%N && ltab_ok tol s' (ls_tab st)
+        then login_replay_opt c tol s' ns' (i + 1) l' else i
+  end.
+
+(** initUsers as observed against [mk_limiter]. *)
+Definition init_ok (attempts block_min : Z) (present : bool) (block : Z) (max : N) : bool :=
+  match mk_limiter {| ac_attempts := attempts; ac_block_min := block_min |} with
+  | Some c => present && (rl_block c =? block) && (rl_max c =? max)%N
+  | None => negb present
+  end.
 
 Fixpoint login_replay (c : rl_conf) (tol : Z) (s : rl_state) (ns : N) (i : Z) (l : list login_step) : Z :=
   match l with
@@ -148,6 +180,10 @@ Definition first_bad (c : case) : Z :=
   | CLogin max ttl block tol steps =>
       login_replay {| rl_ttl := ttl; rl_block := block; rl_max := max |} tol ∅ 0%N 1 steps
   | CSess dict steps => sess_replay dict s_init 1 steps
+  | CInitLogin att blk present oblock omax tol steps =>
+      if init_ok att blk present oblock omax
+      then login_replay_opt (mk_limiter {| ac_attempts := att; ac_block_min := blk |}) tol ∅ 0%N 1 steps
+      else -1
   end.
 
 Definition case_ok (c : case) : bool := first_bad c =? 0.
@@ -172,6 +208,17 @@ Fixpoint login_outs (c : rl_conf) (s : rl_state) (l : list login_step) : list (Z
         let '(s', o) := login c e s in (out_status o, out_retry o) :: login_outs c s' l'
   end.
 
+Fixpoint login_outs_opt (c : option rl_conf) (s : rl_state) (l : list login_step) : list (Z * Z) :=
+  match l with
+  | [] => []
+  | st :: l' =>
+      if ls_kind st =? 1 then (400, -1) :: login_outs_opt c s l'
+      else
+        let e := {| a_now := ls_now st; a_now2 := ls_now st; a_addr := ls_addr st; a_hdr := ls_hdr st;
+                   a_trusted := ls_trusted st; a_ok := ls_ok st |} in
+        let '(s', o) := login_opt c e s in (out_status o, out_retry o) :: login_outs_opt c s' l'
+  end.
+
 Fixpoint sess_state (dict : list bytes) (st : sstate) (n : nat) (l : list (sess_op * (stable * stable))) : sstate :=
   match n, l with
   | S n', (o, _) :: l' => sess_state dict (fst (sess_step dict o st)) n' l'
@@ -191,4 +238,11 @@ Definition explain (c : case) : Z * (ltable * list (Z * Z) * (list (bytes * (byt
   | CSess dict steps =>
       let st := sess_state dict s_init (Z.to_nat i) steps in
       (i, ([], [], (dump_s (ss_mem st), dump_s (ss_disk st))))
+  | CInitLogin att blk _ _ _ _ steps =>
+      (* what the model builds: (block, max) as a one-row table under the key "limiter" / "none" *)
+      let lim := mk_limiter {| ac_attempts := att; ac_block_min := blk |} in
+      (i, (match lim with
+           | Some c => [([108;105;109;105;116;101;114]%N, (rl_block c, rl_max c))]
+           | None => [([110;111;110;101]%N, (0, 0%N))]
+           end, login_outs_opt lim ∅ steps, ([], [])))
   end.
